@@ -137,6 +137,9 @@ type ChildResult struct {
 
 // RunChild runs argv under `timeout -s QUIT`, with stdout+stderr to logFile (keeps goroutine dumps).
 func RunChild(argv []string, env []string, logFile string, watchdog time.Duration) ChildResult {
+	if watchdog <= 0 {
+		watchdog = 15 * time.Minute
+	}
 	start := time.Now()
 	lf, err := os.Create(logFile)
 	if err != nil {
@@ -155,9 +158,7 @@ func RunChild(argv []string, env []string, logFile string, watchdog time.Duratio
 	}
 	cmd.Stdout = lf
 	cmd.Stderr = lf
-	// soft memory limit for analyzer children: makes the collector work harder instead of letting one child take the
-	// whole machine down (a hard limit would turn memory pressure into spurious crashes)
-	cmd.Env = append(append(os.Environ(), "GOMEMLIMIT=12GiB"), env...)
+	cmd.Env = append(os.Environ(), env...)
 	err = cmd.Run()
 	res := ChildResult{LogFile: logFile, Wall: time.Since(start), Status: "ok"}
 	if err != nil {
